@@ -646,8 +646,27 @@ def check_extras(case, ctx):
 
 def gen_extra(rng):
     r = rng.random()
+    if r < 0.12:
+        # outputs that are single gates sitting directly on the inputs, operands drawn with repetition (any arity): the
+        # shapes for which a structural shortcut of a query is most tempting
+        n = rng.randint(1, 4)
+        ins = ['x%d' % i for i in range(n)]
+        g = {i: ('INPUT', ()) for i in ins}
+        outs = []
+        for k in range(rng.randint(1, 3)):
+            t = rng.choice(['XOR', 'NXOR', 'AND', 'OR', 'NAND', 'NOR', 'XOR', 'NXOR', 'GT', 'LEQ', 'LNOT', 'RIFF'])
+            ar = 2 if t in ('GT', 'LEQ', 'LNOT', 'RIFF') else rng.randint(2, 6)
+            ops = [rng.choice(ins) for _ in range(ar)]
+            if rng.random() < 0.6:
+                ops = (ins + ops)[:max(ar, n)] if t not in ('GT', 'LEQ', 'LNOT', 'RIFF') else ops
+                rng.shuffle(ops)
+            g['s%d' % k] = (t, tuple(ops))
+            outs.append('s%d' % k)
+        net = refsem.Net(ins, outs, g)
+        return {'kind': 'extras', 'sub': 'random_circuit', 'net': netgen.describe(net), 'rseed': rng.getrandbits(32)}
     if r < 0.35:
-        net = netgen.rand_net(rng, max_in=4, min_in=1, max_g=8, n_out=rng.randint(1, 3), allow_repeat_outputs=True)
+        net = netgen.rand_net(rng, max_in=4, min_in=1, max_g=8, n_out=rng.randint(1, 3), allow_repeat_outputs=True,
+                              p_repeat_operand=0.3 if rng.random() < 0.4 else None, max_arity=5)
         return {'kind': 'extras', 'sub': 'random_circuit', 'net': netgen.describe(net), 'rseed': rng.getrandbits(32)}
     if r < 0.75:
         n = rng.randint(1, 3)
